@@ -64,7 +64,7 @@ Proof.
     eapply safe_bind; [apply (ensure_slot p1 (p_precommits p1) n set_precommits H1 Hn wf_set_precommits)|]. intros p2 H2.
     eapply safe_bind; [apply (ensure_slot p2 (cc_of p2) n (fun q v => set_cc q v false) H2 Hn); intros; apply wf_set_cc; assumption|]. intros p3 H3.
     apply (ensure_slot p3 (p_pol p3) n set_pol H3 Hn wf_set_pol).
-  - destruct (p_height p =? h + 1); [|exact H].
+  - destruct (p_height p =? as_uint (h + 1)); [|exact H].
     apply (ensure_slot p (p_lc p) n set_lc H Hn wf_set_lc).
 Qed.
 
@@ -86,7 +86,7 @@ Proof.
   destruct ((p_height p =? h) && negb (p_round p =? r) && (r =? p_ccr p));
   destruct (negb (p_height p =? h));
   destruct (cc_of p) as [c|] eqn:Ecc; destruct (p_cc_alias p);
-  try destruct ((p_height p + 1 =? h) && (p_round p =? lcr));
+  try destruct ((as_uint (p_height p + 1) =? h) && (p_round p =? lcr));
   unfold wf_prs in *; cbn in *; try tauto.
 Qed.
 
